@@ -73,11 +73,36 @@ func verifCheckNetConf(r *ev.Rec, where string, c *rpc.NetConf, in any) {
 func TestVerifC12Remote(t *testing.T) {
 	r := ev.New("C12", "podeni-to-netconf")
 	defer r.Flush()
-	r.Rule("every PodENI with 1-3 allocations x family {v4, v6, dual} x subnet {/16, /24, /29, /30, /31, /32, /64, /126, /127, empty} x address position {first host, last-3, the reserved gateway itself, outside} x trunk {with status entry, missing status entry, no trunk} x interface names / default-route flags / extra routes through the real RemoteIPResource.ToRPC; oracle (records whose addresses are inside their subnet, as the cloud assigns them): every produced configuration carries the address, its subnet and that subnet's reserved gateway (third from last, != address), all allocations or none are returned, nothing is returned for a subnet without reserved gateway or a trunk record without status entry; records with addresses outside the subnet / equal to the gateway are only run for crashes")
+	r.Rule("every PodENI with 1-3 allocations x family {v4, v6, dual} x subnet {/16, /24, /29, /30, /31, /32, /64, /126, /127, empty} (thorough: additionally every IPv4 length 8..32 and IPv6 lengths 32..128 in 12 steps) x address position {first host, last-3, the reserved gateway itself, outside} x trunk {with status entry, missing status entry, no trunk} x interface names / default-route flags / extra routes through the real RemoteIPResource.ToRPC; oracle (records whose addresses are inside their subnet, as the cloud assigns them): every produced configuration carries the address, its subnet and that subnet's reserved gateway (third from last, != address), all allocations or none are returned, nothing is returned for a subnet without reserved gateway or a trunk record without status entry; records with addresses outside the subnet / equal to the gateway are only run for crashes")
 	type sub struct{ cidr, in, gw, out string }
 	v4s := []sub{{"10.0.0.0/16", "10.0.0.5", "10.0.255.253", "10.1.0.5"}, {"192.168.1.0/24", "192.168.1.10", "192.168.1.253", "192.168.2.1"}, {"10.0.0.0/29", "10.0.0.1", "10.0.0.5", "10.0.0.9"},
 		{"10.0.0.0/30", "10.0.0.2", "10.0.0.1", "10.0.0.4"}, {"10.0.0.0/31", "10.0.0.1", "", "10.0.0.2"}, {"10.0.0.1/32", "10.0.0.1", "", "10.0.0.2"}, {"", "10.0.0.5", "", "10.0.0.5"}}
 	v6s := []sub{{"fd00::/64", "fd00::5", "fd00::ffff:ffff:ffff:fffd", "fd01::5"}, {"fd00::/126", "fd00::2", "fd00::1", "fd00::5"}, {"fd00::/127", "fd00::1", "", "fd00::2"}, {"", "fd00::5", "", "fd00::5"}}
+	if ev.Thorough() {
+		// thorough: every IPv4 prefix length 8..32 and a ladder of IPv6 lengths, addresses computed from the prefix
+		gen := func(base string, lens []int, outside string) (out []sub) {
+			b := netip.MustParseAddr(base)
+			for _, l := range lens {
+				p := netip.PrefixFrom(b, l).Masked()
+				gw := verifThirdFromLast(p.String())
+				in := p.Addr()
+				if b.BitLen()-l >= 1 {
+					in = in.Next()
+				}
+				if in.String() == gw {
+					in = in.Next()
+				}
+				out = append(out, sub{p.String(), in.String(), gw, outside})
+			}
+			return
+		}
+		var l4 []int
+		for l := 8; l <= 32; l++ {
+			l4 = append(l4, l)
+		}
+		v4s = append(v4s, gen("10.77.200.64", l4, "203.0.113.1")...)
+		v6s = append(v6s, gen("fd00:1:2:3:4:5:6:40", []int{32, 48, 56, 64, 96, 112, 120, 124, 125, 126, 127, 128}, "2001:db8::1")...)
+	}
 	for _, fam := range []string{"v4", "v6", "dual"} {
 		for _, s4 := range v4s {
 			for _, s6 := range v6s {
